@@ -210,6 +210,48 @@ theorem C04_history (revs : List Sect) (base : List Sect) (n : Nat)
 example : (merge ([[(6, .inuse 2 0)], [(5, .free 0 1)], [(5, .inuse 1 0)]] ++
     [[(5, .comp 7 0), (7, .inuse 0 0)]])).lookup 5 = some (.free 0 1) := by decide
 
+/-! ### hybrid-reference revisions (`/XRefStm`, ISO 32000-1 §7.5.8.4) -/
+
+/-- **Hybrid revision.**  What the code makes of a classic table `tab` plus the stream `stm` its
+    trailer names: an in-use entry of the table decides; otherwise the stream's entry for the
+    number; otherwise what the table says (free / nothing).  Any table, any stream. -/
+theorem C04_hybrid_section (tab stm : Sect) (n : Nat) :
+    lastOf (hybridSectImpl tab stm) n =
+      match lastOf tab n with
+      | some (.inuse o g) => some (.inuse o g)
+      | t =>
+        match lastOf stm n with
+        | some e => some e
+        | none => t := by
+  unfold hybridSectImpl
+  rw [lastOf_append, lastOf_filter_key stm (notInuseIn tab) n]
+  unfold notInuseIn
+  cases ht : lastOf tab n with
+  | none => cases lastOf stm n <;> simp
+  | some e =>
+    cases e with
+    | inuse o g => simp
+    | free a b => cases lastOf stm n <;> simp
+    | comp a b => cases lastOf stm n <;> simp
+
+-- table lists 2 and 3 as free (hidden objects) and 1, 4 in use; the stream holds 2 (compressed),
+-- 3 (plain) and a DIFFERENT entry for 1 that must not win
+example :
+    let tab : Sect := [(0, .free 0 65535), (1, .inuse 0 0), (2, .free 0 65535), (3, .free 0 65535), (4, .inuse 2 0)]
+    let stm : Sect := [(1, .inuse 9 0), (2, .comp 3 0), (3, .inuse 1 0)]
+    (merge [hybridSectImpl tab stm]).lookup 2 = some (.comp 3 0) ∧
+    (merge [hybridSectImpl tab stm]).lookup 3 = some (.inuse 1 0) ∧
+    (merge [hybridSectImpl tab stm]).lookup 1 = some (.inuse 0 0) ∧
+    newest [hybridSect tab stm] 2 = some (.comp 3 0) := by decide
+
+/-- **Regression (before the `/XRefStm` repair).**  The stream was never read: hidden objects
+    resolved as free. -/
+theorem C04_witness_xrefstm_ignored_old :
+    let tab : Sect := [(0, .free 0 65535), (1, .inuse 0 0), (2, .free 0 65535)]
+    let stm : Sect := [(2, .comp 3 0), (3, .inuse 1 0)]
+    (merge [hybridSectImplOld tab stm]).lookup 2 = some (.free 0 65535) ∧
+    newest [hybridSect tab stm] 2 = some (.comp 3 0) := by decide
+
 /-! ### recovery scan: the latest header wins -/
 
 /-- `add_headers_latest_wins` on an empty table (`parse_with_recovery_options`): object `n`
